@@ -36,7 +36,7 @@ type c15Case struct {
 	Prog     string   `json:"prog"`
 	Input    string   `json:"input,omitempty"`
 	Vars     []string `json:"vars,omitempty"`
-	Ctx      string   `json:"ctx"`                // live | pre | timeout | never | bg | none (= Execute)
+	Ctx      string   `json:"ctx"`                // live | pre | timeout | never | bg | todo | none (= Execute)
 	Buffered bool     `json:"buffered,omitempty"` // Config.Output is a bufio.Writer
 	MustErr  bool     `json:"must_err"`           // the program cannot end on its own: the call must return the ctx error
 	Prefix   string   `json:"prefix,omitempty"`   // output that was printed before the cancellation
@@ -71,19 +71,30 @@ func (l *c15LockedBuf) String() string {
 	return l.b.String()
 }
 
-func c15Run(cs c15Case) (res c15Res) {
-	var cancelFn context.CancelFunc
-	var mu sync.Mutex
-	cancelled := false
+// c15Session is one Interpreter (one program, one Funcs map) on which several calls can be made.
+type c15Session struct {
+	prog      *parser.Program
+	in        *interp.Interpreter
+	funcs     map[string]any
+	mu        sync.Mutex
+	cancelFn  context.CancelFunc
+	cancelled bool
+	ticks     int
+	after     int
+}
+
+func c15NewSession(src string) *c15Session {
+	s := &c15Session{}
 	doCancel := func() {
-		mu.Lock()
-		cancelled = true
-		mu.Unlock()
-		if cancelFn != nil {
-			cancelFn()
+		s.mu.Lock()
+		s.cancelled = true
+		fn := s.cancelFn
+		s.mu.Unlock()
+		if fn != nil {
+			fn()
 		}
 	}
-	funcs := map[string]any{
+	s.funcs = map[string]any{
 		"cancel": func() { doCancel() },
 		"cancel_later": func(ms int) {
 			go func() {
@@ -92,38 +103,50 @@ func c15Run(cs c15Case) (res c15Res) {
 			}()
 		},
 		"tick": func() {
-			res.Ticks++
-			mu.Lock()
-			if cancelled {
-				res.TicksAfter++
+			s.mu.Lock()
+			s.ticks++
+			if s.cancelled {
+				s.after++
 			}
-			mu.Unlock()
+			s.mu.Unlock()
 		},
 	}
-	prog, err := parser.ParseProgram([]byte(cs.Prog), &parser.ParserConfig{Funcs: funcs})
+	prog, err := parser.ParseProgram([]byte(src), &parser.ParserConfig{Funcs: s.funcs})
 	if err != nil {
-		panic(fmt.Sprintf("harness program does not parse: %v\n%s", err, cs.Prog))
+		panic(fmt.Sprintf("harness program does not parse: %v\n%s", err, src))
 	}
-	in, _ := interp.New(prog)
+	s.prog = prog
+	s.in, _ = interp.New(prog)
+	return s
+}
+
+// run makes one call (cs.Prog is ignored: the session has its program).
+func (s *c15Session) run(cs c15Case) (res c15Res) {
 	var raw c15LockedBuf
 	var errOut c15LockedBuf
-	cfg := &interp.Config{Stdin: strings.NewReader(cs.Input), Output: &raw, Error: &errOut, Vars: cs.Vars, Funcs: funcs, Environ: []string{}}
-	var bw *bufio.Writer
+	cfg := &interp.Config{Stdin: strings.NewReader(cs.Input), Output: &raw, Error: &errOut, Vars: cs.Vars, Funcs: s.funcs, Environ: []string{}}
 	if cs.Buffered {
-		bw = bufio.NewWriterSize(&raw, 1<<16)
-		cfg.Output = bw
+		cfg.Output = bufio.NewWriterSize(&raw, 1<<16)
 	}
+	s.mu.Lock()
+	s.cancelFn, s.cancelled, s.ticks, s.after = nil, false, 0, 0
+	s.mu.Unlock()
 	ctx := context.Background()
 	switch cs.Ctx {
+	case "todo":
+		ctx = context.TODO()
 	case "live", "never":
 		c, cancel := context.WithCancel(context.Background())
-		ctx, cancelFn = c, cancel
+		ctx = c
+		s.mu.Lock()
+		s.cancelFn = cancel
+		s.mu.Unlock()
 		defer cancel()
 	case "pre":
 		c, cancel := context.WithCancel(context.Background())
 		cancel()
 		ctx = c
-		cancelled = true
+		s.cancelled = true
 	case "timeout":
 		c, cancel := context.WithTimeout(context.Background(), 30*time.Millisecond)
 		ctx = c
@@ -136,35 +159,40 @@ func c15Run(cs c15Case) (res c15Res) {
 	}()
 	start := time.Now()
 	if cs.Ctx == "none" {
-		res.Status, res.Err = in.Execute(cfg)
+		res.Status, res.Err = s.in.Execute(cfg)
 	} else {
-		res.Status, res.Err = in.ExecuteContext(ctx, cfg)
+		res.Status, res.Err = s.in.ExecuteContext(ctx, cfg)
 	}
 	res.Wall = time.Since(start).Seconds()
 	res.Out = raw.String()
-	mu.Lock()
-	res.Cancelled = cancelled
-	mu.Unlock()
+	s.mu.Lock()
+	res.Cancelled, res.Ticks, res.TicksAfter = s.cancelled, s.ticks, s.after
+	s.cancelFn = nil
+	s.mu.Unlock()
 	return res
 }
 
-// c15RunGuard is c15Run with a watchdog: a run that never returns (the property's worst violation) must not hang the check.
-var c15Hung int32 // set once a run failed to return: the remaining runs are skipped (the stuck goroutine keeps a core busy)
+func c15Run(cs c15Case) c15Res { return c15NewSession(cs.Prog).run(cs) }
 
-func c15RunGuard(cs c15Case) c15Res {
+// c15Guard runs f with a watchdog: a call that never returns (the property's worst violation) must not hang the check.
+func c15Guard(f func() c15Res) c15Res {
 	if atomic.LoadInt32(&c15Hung) != 0 {
 		return c15Res{Skipped: true}
 	}
 	ch := make(chan c15Res, 1)
-	go func() { ch <- c15Run(cs) }()
+	go func() { ch <- f() }()
 	select {
 	case r := <-ch:
 		return r
 	case <-time.After(90 * time.Second):
 		atomic.StoreInt32(&c15Hung, 1)
-		return c15Res{Panic: "the call did not return within 90 s after the cancellation", Cancelled: true}
+		return c15Res{Panic: "the call did not return within 90 s", Cancelled: true}
 	}
 }
+
+var c15Hung int32 // set once a run failed to return: the remaining runs are skipped (the stuck goroutine keeps a core busy)
+
+func c15RunGuard(cs c15Case) c15Res { return c15Guard(func() c15Res { return c15Run(cs) }) }
 
 func c15IsCtxErr(err error) bool {
 	return errors.Is(err, context.Canceled) || errors.Is(err, context.DeadlineExceeded)
@@ -371,6 +399,95 @@ func runC15(c *vh.Ctx) {
 					Got:  fmt.Sprintf("status=%d err=%v ticks=%d out=%q", r.Status, r.Err, r.Ticks, c15Trunc(r.Out)),
 					Want: fmt.Sprintf("status=%d err=%v ticks=%d out=%q", ref.Status, ref.Err, ref.Ticks, c15Trunc(ref.Out))})
 			}
+		}
+	}
+
+	// ---- sequences on ONE Interpreter: a cancelled / expired / pre-cancelled ExecuteContext, then a call that is never
+	// cancelled (ExecuteContext(Background), ExecuteContext(TODO), Execute, ExecuteContext(fresh live context)); the second
+	// call must equal the same call on a fresh interpreter and must not return a context error ----
+	seqProgs := []string{
+		// > 1000 instructions; K = iteration that calls cancel() (-1: never); SPIN: never ends on its own
+		`BEGIN { for (i = 0; i < 3000; i++) { tick(); if (i == K) cancel() } if (SPIN) while (1) tick(); print "done", i }`,
+		`{ tick(); n++; if (NR == K) cancel() } END { if (SPIN) while (1) s++; for (i = 0; i < 1500; i++) s += i; print n, s }`,
+		`function f(d) { tick(); if (d == K) cancel(); if (d > 0) f(d - 1) } BEGIN { for (r = 0; r < 40; r++) f(60); if (SPIN) while (1) f(3); print "ok", r }`,
+		`BEGIN { if (K >= 0) { cancel_later(40); system("sleep 5") } if (SPIN) while (1) tick(); for (i = 0; i < 2000; i++) tick(); system("echo sys"); print "x" | "cat"; close("cat"); "echo hi" | getline y; print y, i }`,
+	}
+	recs2000 := strings.Repeat("r\n", 2000)
+	type seqJob struct {
+		prog          int
+		first, second c15Case
+	}
+	var seqs []seqJob
+	for p := range seqProgs {
+		for _, fk := range []string{"live-cancelled", "pre", "timeout", "live-cancelled-buffered"} {
+			for _, sk := range []string{"bg", "todo", "none", "never"} {
+				if p == 3 && !c.Thorough() && !(sk == "bg" || sk == "todo") {
+					continue // the program that starts processes: fewer combinations in the quick tier
+				}
+				first := c15Case{Shape: "seq-first:" + fk, Prog: seqProgs[p], Input: recs2000, Ctx: "live", Vars: []string{"K", fmt.Sprint(5 + c.Rng.Intn(40)), "SPIN", "1"}, MustErr: true}
+				switch fk {
+				case "pre":
+					first.Ctx, first.Vars = "pre", []string{"K", "-1", "SPIN", "1"}
+				case "timeout":
+					first.Ctx, first.Vars = "timeout", []string{"K", "-1", "SPIN", "1"}
+				case "live-cancelled-buffered":
+					first.Buffered = true
+				}
+				second := c15Case{Shape: "seq-second:" + sk, Prog: seqProgs[p], Input: recs2000, Ctx: sk, Vars: []string{"K", "-1", "SPIN", "0"}}
+				seqs = append(seqs, seqJob{p, first, second})
+			}
+		}
+	}
+	type seqRes struct{ first, second, fresh c15Res }
+	seqOut := make([]seqRes, len(seqs))
+	runSeq := func(i int) {
+		j := seqs[i]
+		seqOut[i].first = c15Guard(func() c15Res { return c15NewSession(j.first.Prog).run(j.first) })
+		if seqOut[i].first.Skipped || seqOut[i].first.Panic != "" {
+			return
+		}
+		seqOut[i] = func() seqRes {
+			var r seqRes
+			r.second = c15Guard(func() c15Res {
+				s := c15NewSession(j.first.Prog)
+				r.first = s.run(j.first)
+				s.in.ResetVars() // variables legitimately carry over (C14); this property is about the context only
+				return s.run(j.second)
+			})
+			r.fresh = c15Guard(func() c15Res { return c15NewSession(j.second.Prog).run(j.second) })
+			return r
+		}()
+	}
+	for i := range seqs { // serial: some of them wait for processes and deadlines
+		if seqs[i].prog == 3 || seqs[i].first.Ctx == "timeout" {
+			runSeq(i)
+		}
+	}
+	vh.Parallel(len(seqs), func(i int) {
+		if !(seqs[i].prog == 3 || seqs[i].first.Ctx == "timeout") {
+			runSeq(i)
+		}
+	})
+	for i, j := range seqs {
+		r := seqOut[i]
+		if r.first.Skipped || r.second.Skipped || r.fresh.Skipped {
+			continue
+		}
+		c.OracleCase()
+		c.Eval(fmt.Sprint("seq", j.prog, j.first.Shape, j.first.Vars, j.second.Shape), true)
+		c.Hit(j.first.Shape)
+		c.Hit(j.second.Shape)
+		cs := map[string]interface{}{"prog": seqProgs[j.prog], "first": j.first.Shape, "first_vars": j.first.Vars, "first_ctx": j.first.Ctx,
+			"second_ctx": j.second.Ctx, "second_vars": j.second.Vars, "input": "2000 records"}
+		if msg := c15Check(j.first, r.first); msg != "" {
+			c.Fail(vh.Failure{Kind: "oracle", What: "first call of a sequence: " + msg, Case: cs, Got: fmt.Sprintf("err=%v ticksAfter=%d", r.first.Err, r.first.TicksAfter)})
+			continue
+		}
+		got := fmt.Sprintf("status=%d err=%v ticks=%d out=%q", r.second.Status, r.second.Err, r.second.Ticks, c15Trunc(r.second.Out))
+		want := fmt.Sprintf("status=%d err=%v ticks=%d out=%q", r.fresh.Status, r.fresh.Err, r.fresh.Ticks, c15Trunc(r.fresh.Out))
+		if r.second.Panic != "" || got != want || r.second.Err != nil {
+			c.Fail(vh.Failure{Kind: "oracle", What: "a never-cancelled call right after a cancelled one on the same Interpreter differs from the same call on a fresh interpreter (or returned an error)",
+				Case: cs, Got: got + " panic=" + r.second.Panic, Want: want})
 		}
 	}
 
